@@ -445,6 +445,7 @@ CHECKS = [
     ("w5", "checkPatternBlock icrp107"),
     ("w9", "checkFloatBlock icrp107 floatRelC floatRelCi floatTiny"),
     ("w9agg", "checkAggBlock icrp107 aggErrBound aggCondBound"),
+    ("wround", "checkRoundBlock icrp107 roundBound"),
     ("w9lam", "checkLamBlock icrp107 ln2Lo ln2Hi lamRel"),
     ("w9mass", "checkMassBlock icrp107 massRel"),
     ("wread", "checkReadableBlock icrp107"),
@@ -453,7 +454,7 @@ CHECKS = [
 OBL_FILES = 13
 
 
-HEAVY = {"w1": 1.0, "w2": 0.15, "w9agg": 3.0, "w9": 0.2, "w5": 0.1, "w47": 0.15, "w3": 0.03, "wpar": 0.03,
+HEAVY = {"w1": 1.0, "w2": 0.15, "w9agg": 3.0, "wround": 3.0, "w9": 0.2, "w5": 0.1, "w47": 0.15, "w3": 0.03, "wpar": 0.03,
          "w9lam": 0.03, "w9mass": 0.03, "w6": 0.03, "wread": 0.03, "wdiag": 0.3}
 
 
@@ -465,7 +466,7 @@ def emit_obligations(nb: int, block_cost=None):
     block_cost = block_cost or [1] * nb
     total = sum(block_cost)
     for pre, expr in CHECKS:
-        imp = "import RdVerif.Model.DatasetBounds" + ("\nimport RdVerif.Model.Queries" if pre == "wread" else "") + ("\nimport RdVerif.Model.Diagram" if pre == "wdiag" else "")
+        imp = "import RdVerif.Model.DatasetBounds" + ("\nimport RdVerif.Model.Queries" if pre == "wread" else "") + ("\nimport RdVerif.Model.Diagram" if pre == "wdiag" else "") + ("\nimport RdVerif.Model.Rounding" if pre == "wround" else "")
         mods = []
         # pack: budget = 1/12 of the total cost, scaled by how heavy this check is
         budget = total / 12 / max(HEAVY.get(pre, 0.1), 0.01) / 3
